@@ -240,6 +240,8 @@ def api_outcome(cfg):
 
 def check(run):
     import genlib
+    genlib.validate_spline_modifier(run, n=run.n(40, 400))
+    import genlib
     genlib.validate_cfg_logic(run, "pair_species", n=run.n(300, 4000))
     genlib.validate_read_from_parser(run, n=run.n(40, 400))
     genlib.validate_pair_builder(run, n=run.n(30, 300))
